@@ -25,7 +25,11 @@ StatusOK(e) ==
   /\ (e.unknown => ~e.success)
 (* a value the library recognises must be the registered one, with the registered meaning;
    converting a symbol back gives the number it was decoded from *)
-EnumOK(e) == IF e.defined THEN e.disc = e.code /\ Means(Reg(e.table), e.code, e.sym) ELSE TRUE
+(* (values outside the transcribed tables - later registrations - can only be checked for
+   converting back to their own number) *)
+EnumOK(e) == IF e.defined
+             THEN e.disc = e.code /\ (e.code \in DOMAIN Reg(e.table) => Means(Reg(e.table), e.code, e.sym))
+             ELSE TRUE
 (* every value the properties rely on must be recognised *)
 Required(t) == CASE t = "delim" -> {1, 2, 3, 4, 5}
                  [] t = "vtag"  -> {16, 18, 19, 33, 34, 35, 48, 49, 50, 51, 52, 53, 54, 55, 65, 66, 68, 69, 70, 71, 72, 73, 74}
